@@ -16,10 +16,22 @@ import (
 	"verif/engine/interp"
 )
 
-const (
-	repoDir  = "/repo"
+// repoDir is /repo for every registered command. VERIF_REPO / VERIF_OUT are development
+// overrides used by tools/seedtest.sh only: they point the check at a scratch worktree with a
+// seeded change applied and send evidence, replays and work files to a scratch directory, so
+// that seeded changes never touch /repo and never overwrite committed evidence.
+var (
+	repoDir  = envOr("VERIF_REPO", "/repo")
 	verifDir = "/verif"
+	outDir   = envOr("VERIF_OUT", "/verif")
 )
+
+func envOr(k, d string) string {
+	if v := os.Getenv(k); v != "" {
+		return v
+	}
+	return d
+}
 
 // Runner loads the harness into the engine and builds the native replayer.
 type Runner struct {
@@ -88,7 +100,7 @@ func collectOverlay(generated map[string][]byte, only []string) (map[string]stri
 
 func NewRunner(tag string, generated map[string][]byte, only []string) (*Runner, error) {
 	r := &Runner{}
-	r.WorkDir = filepath.Join(verifDir, "work", fmt.Sprintf("%s-%d", tag, os.Getpid()))
+	r.WorkDir = filepath.Join(outDir, "work", fmt.Sprintf("%s-%d", tag, os.Getpid()))
 	if err := os.MkdirAll(r.WorkDir, 0o755); err != nil {
 		return nil, err
 	}
@@ -106,6 +118,7 @@ func NewRunner(tag string, generated map[string][]byte, only []string) (*Runner,
 	}
 	r.Files = virt
 	t0 := time.Now()
+	interp.RepoPrefix = repoDir + "/"
 	eng, err := interp.Load(repoDir, content)
 	if err != nil {
 		return nil, err
